@@ -44,6 +44,137 @@ pub fn run_cli(release: bool, opts: &[&str], content: &[u8], tag: &str) -> Resul
     Ok(CliOut { code: out.status.code(), signal: out.status.signal(), stdout: out.stdout, stderr: out.stderr })
 }
 
+/// Run the CLI over a FIFO that is fed portion by portion while the harness moves the program's wall clock
+/// (shared clock file read by the LD_PRELOAD shim): the timed twin of `run::run_timed`. stdout goes to a file.
+pub fn run_cli_timed(release: bool, opts: &[&str], steps: &[crate::run::TimedStep], tag: &str) -> Result<CliOut, String> {
+    use crate::shim;
+    use std::os::unix::process::ExitStatusExt;
+    let dir = scratch_dir();
+    let fifo = dir.join(format!("cli-{tag}.fifo"));
+    let clock = dir.join(format!("cli-{tag}.clock"));
+    let outp = dir.join(format!("cli-{tag}.out"));
+    let _ = std::fs::remove_file(&fifo);
+    let cpath = std::ffi::CString::new(fifo.to_string_lossy().as_bytes()).map_err(|e| e.to_string())?;
+    if unsafe { libc::mkfifo(cpath.as_ptr(), 0o600) } != 0 {
+        return Err(format!("mkfifo: {}", std::io::Error::last_os_error()));
+    }
+    let (es, ens) = shim::epoch();
+    let write_clock = |ns_total: i64| -> Result<(), String> {
+        let t = ens + ns_total;
+        let mut b = Vec::with_capacity(16);
+        b.extend_from_slice(&(es + t / 1_000_000_000).to_le_bytes());
+        b.extend_from_slice(&(t % 1_000_000_000).to_le_bytes());
+        // in place: the child has the file mapped
+        use std::io::{Seek, Write};
+        let mut f = std::fs::OpenOptions::new().create(true).write(true).truncate(false).open(&clock).map_err(|e| e.to_string())?;
+        f.seek(std::io::SeekFrom::Start(0)).map_err(|e| e.to_string())?;
+        f.write_all(&b).map_err(|e| e.to_string())
+    };
+    let _ = std::fs::remove_file(&clock);
+    write_clock(0)?;
+    let outf = std::fs::File::create(&outp).map_err(|e| e.to_string())?;
+    let mut child = Command::new(if release { CLI_RELEASE } else { CLI_DEV })
+        .arg("-s")
+        .arg(&fifo)
+        .args(opts)
+        .env("LD_PRELOAD", FAKECLOCK)
+        .env("VERIF_FAKE_CLOCK_FILE", &clock)
+        .env_remove("RUST_LOG")
+        .env("RUST_BACKTRACE", "0")
+        .stdin(Stdio::null())
+        .stdout(Stdio::from(outf))
+        .stderr(Stdio::piped())
+        .spawn()
+        .map_err(|e| e.to_string())?;
+    let pid = child.id();
+    let t0 = shim::real_mono_ns();
+    let wfd = loop {
+        let fd = unsafe { libc::open(cpath.as_ptr(), libc::O_WRONLY | libc::O_NONBLOCK) };
+        if fd >= 0 {
+            break fd;
+        }
+        if child.try_wait().ok().flatten().is_some() || shim::real_mono_ns() - t0 > 5_000_000_000 {
+            break -1;
+        }
+        shim::real_sleep_us(100);
+    };
+    let mut elapsed_ns = 0i64;
+    let mut all_consumed = true;
+    if wfd >= 0 {
+        unsafe {
+            let fl = libc::fcntl(wfd, libc::F_GETFL);
+            libc::fcntl(wfd, libc::F_SETFL, fl & !libc::O_NONBLOCK);
+        }
+        let child_fd = |pid: u32| -> Option<i32> {
+            for e in std::fs::read_dir(format!("/proc/{pid}/fd")).ok()?.flatten() {
+                if std::fs::read_link(e.path()).ok().as_deref() == Some(fifo.as_path()) {
+                    return e.file_name().to_str().and_then(|x| x.parse().ok());
+                }
+            }
+            None
+        };
+        for s in steps {
+            let mut off = 0usize;
+            while off < s.bytes.len() {
+                let n = unsafe { libc::write(wfd, s.bytes[off..].as_ptr() as *const libc::c_void, s.bytes.len() - off) };
+                if n <= 0 {
+                    break;
+                }
+                off += n as usize;
+            }
+            // consumed: the pipe is empty and a thread of the child is blocked in read() on its end of it
+            let t = shim::real_mono_ns();
+            let mut ok = false;
+            while shim::real_mono_ns() - t < 3_000_000_000 {
+                let mut inq: libc::c_int = -1;
+                let drained = unsafe { libc::ioctl(wfd, libc::FIONREAD, &mut inq) } == 0 && inq == 0;
+                if drained {
+                    if let Some(cfd) = child_fd(pid) {
+                        let blocked = std::fs::read_dir(format!("/proc/{pid}/task")).ok().into_iter().flatten().flatten().any(|e| {
+                            std::fs::read_to_string(e.path().join("syscall")).ok().is_some_and(|l| {
+                                let mut it = l.split_whitespace();
+                                let nr = it.next().and_then(|x| x.parse::<i64>().ok());
+                                let a0 = it.next().and_then(|x| i64::from_str_radix(x.trim_start_matches("0x"), 16).ok());
+                                nr == Some(libc::SYS_read) && a0 == Some(cfd as i64)
+                            })
+                        });
+                        if blocked {
+                            ok = true;
+                            break;
+                        }
+                    }
+                }
+                if child.try_wait().ok().flatten().is_some() {
+                    break;
+                }
+                shim::real_sleep_us(50);
+            }
+            if !ok {
+                all_consumed = false;
+            }
+            if s.advance_ms != 0 {
+                elapsed_ns += s.advance_ms * 1_000_000;
+                write_clock(elapsed_ns)?;
+            }
+        }
+        unsafe { libc::close(wfd) };
+    } else {
+        let _ = child.kill();
+    }
+    let out = child.wait_with_output().map_err(|e| e.to_string())?;
+    let stdout = std::fs::read(&outp).unwrap_or_default();
+    let _ = std::fs::remove_file(&fifo);
+    let _ = std::fs::remove_file(&clock);
+    let _ = std::fs::remove_file(&outp);
+    if wfd < 0 {
+        return Err(format!("the CLI never opened its input (exit {:?})", out.status.code()));
+    }
+    if !all_consumed && out.status.code() == Some(0) {
+        return Err("a portion of the timed stream was not seen consumed by the CLI".into());
+    }
+    Ok(CliOut { code: out.status.code(), signal: out.status.signal(), stdout, stderr: out.stderr })
+}
+
 /// remove ANSI control sequences (ESC [ ... final byte): how the screen is cleared is not part of
 /// any property, so the parsing below must not depend on the exact sequence
 pub fn strip_ansi(s: &str) -> String {
